@@ -287,7 +287,7 @@ func pickDomNode(r *rand.Rand, v *Val) ([]PItem, *Val) {
 }
 
 func randDomDoc(r *rand.Rand) (byte, *Val) {
-	cfg := &genCfg{maxDepth: 2 + r.Intn(2), maxElems: 1 + r.Intn(5), maxStr: 12}
+	cfg := &genCfg{maxDepth: 2 + r.Intn(2), maxElems: 1 + r.Intn(5), maxStr: 12, contKeys: r.Intn(5) == 0}
 	switch r.Intn(6) {
 	case 0: // large int-keyed map (above the real hash threshold), colliding keys
 		n := 17 + r.Intn(24)
